@@ -53,7 +53,11 @@ def atan(x):
 
 @builtin
 def cycle(theta):
-    return theta if theta >= 0.0 and theta < 360.0 else theta % 360.0
+    if 0.0 <= theta < 360.0:
+        return theta
+    result = theta % 360.0
+    # The remainder of an angle a hair below zero rounds to the full turn.
+    return result if result < 360.0 else 0.0
 
 @builtin
 def random(min, max):
